@@ -203,6 +203,17 @@ def cases(tier):
                 idx += 1
                 yield {'fam': 'scope', 'nest': [list(a)], 'sib': [list(b)],
                        'ncall': ncall, 'syntax': SYNTAXES[idx % 3]}
+    # the tags written with other white space between their parts (tab,
+    # CR LF, form feed, ...): every single block and every pair
+    for ws in (2, 4, 5, 6, 7, 8, 9):
+        for d in (1, 2):
+            for nest in itertools.product(range(len(levels)), repeat=d):
+                if d == 2 and (ws not in (5, 6) or not (
+                        levels[nest[0]][1] and levels[nest[1]][1])):
+                    continue
+                idx += 1
+                yield {'fam': 'scope', 'nest': [list(levels[i]) for i in nest],
+                       'ws': ws, 'syntax': SYNTAXES[idx % 3]}
     # the probe name spelled with capitals / an underscore inside / digits:
     # a name is a name (every single block and every pair of nested blocks)
     for name in ('Nm', 'itemCount', 'N', 'n_2'):
@@ -547,6 +558,14 @@ def observe(nodes, ns, syntax, mode):
 
 
 def run(case):
+    ast.DEFAULT_STYLE['ws'] = case.get('ws', 0)
+    try:
+        return run_(case)
+    finally:
+        ast.DEFAULT_STYLE['ws'] = 0
+
+
+def run_(case):
     res = Res()
     if case['fam'] == 'src':
         nodes, parts = build_src(case)
